@@ -110,7 +110,11 @@ def record(analysis, it, cl: Classifier, out, ctxname: str, root="__init__:Gatew
                 rec["sub"] = f[3]
     objs_new: Dict[tuple, dict] = {}
     copies: Dict[tuple, tuple] = {}
+    rec["inbound_rewrites"] = []
+    validated_at = next((i for i, e in enumerate(st.events) if e.kind == "exit" and e.name == "message:Message.validate"), None)
     for idx, e in enumerate(st.events):
+        if e.kind == "store" and msgkey is not None and validated_at is not None and idx > validated_at and isinstance(e.recv, V) and e.recv.key() == msgkey and e.name in ("node_id", "child_id", "type", "ack", "sub_type", "payload"):
+            rec["inbound_rewrites"].append({"idx": idx, "field": e.name, "func": e.func, "line": e.line})
         if e.kind == "enter":
             depth = len(e.stack)
             q = e.name
